@@ -190,6 +190,23 @@ def requested_size_reaches_bundle():
     return guarded("bundle/requested size", run)
 
 
+def bundle_order_through_convert():
+    """through convert(): the dependencies come in the order of their *names* (the library spells some headers `PROCEDURE`, some
+    `procedure`: the spelling of the header is not part of the name), each once, the program's own procedure last"""
+    def run():
+        res = []
+        progs = {"VAL and CLS": '10 A=VAL("1"):CLS\n', "PLAY, HDRAW, HPUT, STRING$": '10 PLAY "C":HDRAW "U1":HBUFF 1,10:HPUT(0,0)-(1,1),1,PSET:A$=STRING$(2,"x")\n',
+                 "HPAINT, HGET, INSTR, SOUND": '10 HPAINT(1,2):HBUFF 1,10:HGET(0,0)-(1,1),1:A=INSTR(1,"a","a"):SOUND 1,1\n'}
+        for name, src in progs.items():
+            out = convert(src, output_dependencies=True, procname="zz_main")
+            heads = re.findall(r"(?mi)^procedure (\w+)", out)
+            want = sorted(set(heads) - {"zz_main"}) + ["zz_main"]
+            mixed = len({re.match(r"(?m)^(procedure|PROCEDURE)", l).group(1) for l in out.split("\n") if re.match(r"^(procedure|PROCEDURE) ", l)}) == 2
+            res.append(ob("bundle/order by name through convert()/%s" % name, heads == want and mixed, "sorted by name, root last (bundle mixes both header spellings)", heads if heads != want else "sorted" if mixed else "bundle does not mix header spellings (vacuous)"))
+        return res
+    return guarded("bundle/order", run)
+
+
 def line_splitting():
     """the bank splits its input at CR and LF only: every other character of a procedure comes through unchanged"""
     def run():
@@ -220,4 +237,4 @@ def history():
 
 
 def obligations():
-    return small_graphs() + real_library() + regex_contracts() + user_text() + requested_size_reaches_bundle() + line_splitting() + history()
+    return small_graphs() + real_library() + regex_contracts() + user_text() + requested_size_reaches_bundle() + bundle_order_through_convert() + line_splitting() + history()
